@@ -2,10 +2,10 @@
 PROPS["C20"] = dict(
     level="exploration",
     level_text="The daemon runs in virtual time under the Go race detector while 3-5 scripted speakers (announcements, withdrawals, flaps, slow readers, "
-               "concurrent bursts) are composed with management clients in their own goroutines (peer add/delete/update, policy and defined-set edits, VRFs, "
+               "concurrent bursts) (half of them negotiating graceful restart, a quarter long-lived graceful restart, with restart times of a few virtual seconds so that every GR phase is met) are composed with management clients in their own goroutines (peer add/delete/update, policy and defined-set edits, VRFs, "
                "API paths, soft/hard resets, enable/disable/shutdown, watchers added and stopped, list/get readers); schedules are diversified with "
                "GOMAXPROCS 1/2/4/16 and the lock-free yield hooks. Monitors: race reports with gobgp frames; API calls still outstanding after exact "
-               "quiescence plus 20 virtual minutes (lost wake-up); bubble never idle (mutex deadlock, watchdog + stall dump); after Stop()/DeletePeer every "
+               "quiescence plus 20 virtual minutes (lost wake-up); bubble never idle (mutex deadlock: the recorder's stall monitor analyses its all-goroutine dump - nobody runnable and goroutines waiting for a sync.Mutex/RWMutex for minutes is a deadlock on the first strike, keyed by the gobgp functions waiting; anything else is the two-strike watchdog); after Stop()/DeletePeer every "
                "connection closed and no gobgp goroutine alive; any crash. Exploration: schedules are sampled.",
     level_note="Races/deadlocks only on paths these workloads drive; a lock-order inversion that never manifests is not detected (no lockdep). "
                "Virtual time (synctest) serialises timer firing with goroutine quiescence, real-socket effects are out of reach.",
